@@ -38,7 +38,7 @@ class Prop:
             'mutated line through decode() (message or library exception), and embedded in a line sequence with '
             'valid single and multi-part messages through IterMessages, ByteStream and NMEAQueue with and without a '
             'TagBlockQueue (no exception; bystander messages delivered unchanged); compared with the Lean model '
-            '(exception class / deliveries); non-trivial = the mutated line is rejected or changes a field')
+            '(exception class / deliveries); non-trivial = the mutated line is rejected or changes a field ; payload lengths and fragment counts / numbers at, below and above the parser\'s limits; very short lines always embedded')
     assumptions = ['lines longer than 4096 bytes / int() digit limits / MemoryError are outside the modelled domain']
 
     def run(self, ctx):
